@@ -289,6 +289,17 @@ struct World
       ctx.ev("get in fail state");
       return;
     }
+    if (sim::fault::any_fired())
+    {
+      // a fault of another kind (failing seek/tell/sync inside get_char, possible only for an
+      // implementation that makes such calls there): failure or the true character, then the
+      // stream state is no longer tracked
+      if (returned && r.has_value())
+        SIM_CHECK(i < text.size() && r.get_unsafe() == text[i], "wrong-character", "get_char returned a character that is not the next one");
+      dead = true;
+      ctx.ev("get under a non-read fault");
+      return;
+    }
     SIM_CHECK(returned, "undocumented-exception", "get_char threw although nothing failed");
     if (i < text.size())
     {
@@ -351,13 +362,28 @@ struct World
     }
     if (!returned)
     {
-      SIM_CHECK(seek_fault, "undocumented-exception", "set_position threw although no seek failed");
+      SIM_CHECK(seek_fault || failed, "undocumented-exception", "set_position threw although no seek failed");
       failed = true;
       ctx.probe("seek_failed");
       ctx.ev("set -> exception");
       return;
     }
-    SIM_CHECK(!seek_fault, "seek-failure-ignored", "set_position returned normally although the seek failed");
+    if (seek_fault)
+    {
+      // a seek/tell failed inside, yet set_position returned: fine if it got there anyway (an
+      // implementation may retry or not need that call) - judged by where the stream is now
+      std::optional<position_t> now;
+      bool ok2 = true;
+      try
+      {
+        now.emplace(stream->get_position());
+      }
+      catch (exception_t const &)
+      {
+        ok2 = false;
+      }
+      SIM_CHECK(ok2 && static_cast<std::size_t>(std::streamoff(now->pos())) == target, "seek-failure-ignored", "set_position returned normally although the seek failed and the stream is not at the requested position");
+    }
     if (target < i)
     {
       bool crosses = false;
@@ -426,12 +452,19 @@ struct World
     SIM_CHECK(matched == should, "char-parser-result", n + " on character " + std::to_string(static_cast<long>(got)) + ": " + res);
     if (!matched)
     {
+      // the message must CARRY the location immediately after the offending character, rendered
+      // the way the library renders locations (line:column); its wording is not prescribed
       auto const l = loc(i);
-      std::string const prefix = "F:Line " + std::to_string(l.first) + ":" + std::to_string(l.second) + ": Expected ";
-      std::string suffix = ", got ";
-      suffix.push_back(static_cast<unsigned long>(got) < 128 ? static_cast<char>(got) : '?');
-      SIM_CHECK(res.compare(0, prefix.size(), prefix) == 0 && res.size() >= suffix.size() && res.compare(res.size() - suffix.size(), suffix.size(), suffix) == 0,
-                "error-location", n + " failed at offset " + std::to_string(i - 1) + "; message '" + res + "' does not carry location " + std::to_string(l.first) + ":" + std::to_string(l.second) + " (immediately after the offending character)");
+      std::string const token = std::to_string(l.first) + ":" + std::to_string(l.second);
+      bool carries = false;
+      for (std::size_t at = res.find(token); at != std::string::npos; at = res.find(token, at + 1))
+      {
+        bool const left_ok = at == 0 || !(res[at - 1] >= '0' && res[at - 1] <= '9');
+        bool const right_ok = at + token.size() >= res.size() || !(res[at + token.size()] >= '0' && res[at + token.size()] <= '9');
+        if (left_ok && right_ok)
+          carries = true;
+      }
+      SIM_CHECK(carries, "error-location", n + " failed at offset " + std::to_string(i - 1) + "; message '" + res + "' does not carry location " + token + " (immediately after the offending character)");
       ctx.probe(got == Ch('\n') ? "error_after_newline" : "error_location_checked");
     }
     ctx.ev(n + " -> " + (matched ? std::string("match") : res));
